@@ -36,6 +36,9 @@ func renamedTo(w CalleeID) string {
 
 func relPkg(path string) string { return strings.TrimPrefix(path, ModPath+"/") }
 
+// NamedName: the name of a (pointer to a) named type, "" otherwise.
+func NamedName(t types.Type) string { return namedName(t) }
+
 func namedName(t types.Type) string {
 	t = deref(t)
 	switch n := t.(type) {
